@@ -62,9 +62,10 @@ def obligations(tier, H):
         for pos in POSITIONS:
             for vt in ("int", "str"):
                 add({"via": via, "pos": pos}, [("v", vt), ("w", "int")], "h_names")
-    for bad in ("object", "function", "complex", "bytes", "bean"):
+    for bad in ("object", "function", "complex", "bytes", "bean", "strict_eq"):
         for pos in POSITIONS:
-            add({"bad": bad, "pos": pos}, [("v", "int"), ("w", "str")], "h_unsupported")
+            for ignore in (False, True):
+                add({"bad": bad, "pos": pos, "ignore": ignore}, [("v", "int"), ("w", "str")], "h_unsupported")
     return obs
 
 
